@@ -108,3 +108,70 @@ Theorem C07_strong_hypotheses_imply_partial_hypotheses :
   /\ frags_posb srcs frags = true /\ forallb (op_posb srcs) ops = true.
 Proof. exact strong_wf_implies_weak. Qed.
 Print Assumptions C07_strong_hypotheses_imply_partial_hypotheses.
+
+(* ================= "never loops" for the converter ================= *)
+From Verif Require Import Proofs.ConvertFuel.
+
+(* fuel is only a depth bound: once the whole generation produces any result (a value, an error
+   or a panic), one more unit of fuel gives the same result -- no hypothesis at all *)
+Theorem C07_generation_result_independent_of_fuel :
+  forall sch cfg frags srcs f ops,
+  generate_types_with sch cfg frags srcs f ops <> OutOfFuel ->
+  generate_types_with sch cfg frags srcs (S f) ops = generate_types_with sch cfg frags srcs f ops.
+Proof. exact generate_types_fuel_S. Qed.
+Print Assumptions C07_generation_result_independent_of_fuel.
+
+(* termination: when named fragments do not spread each other in a cycle (gqlparser's
+   NoFragmentCycles; Corr/Convcorr.v evaluates [frags_acyclicb] on every explored program) and
+   the possible types of every schema type are object types, the converter -- the response side
+   through selection trees and fragment spreads, the input side through possibly RECURSIVE input
+   types, where it stops because a type is registered before its fields are converted -- returns
+   for every large enough fuel, with one result per program; the fixed fuel of the model
+   ([generate_types], FUEL = 400) gives that result whenever it gives one *)
+Theorem C07_generation_terminates :
+  forall sch cfg frags srcs, impls_objects sch -> frags_acyclic frags -> forall ops,
+  exists n r, r <> OutOfFuel
+    /\ (forall m, (n <= m)%nat -> generate_types_with sch cfg frags srcs m ops = r)
+    /\ (generate_types sch cfg frags srcs ops <> OutOfFuel -> generate_types sch cfg frags srcs ops = r).
+Proof. exact generate_types_total. Qed.
+Print Assumptions C07_generation_terminates.
+
+Theorem C07_recursive_input_types_terminate :
+  forall sch cfg frags srcs, impls_objects sch -> forall Q,
+  exists n, forall m, (n <= m)%nat ->
+  forall src prefix def sels opts tm, In def sch -> sels = [] \/ td_kind def = KInput ->
+  convert_definition sch cfg frags srcs m src prefix def sels opts Q tm <> OutOfFuel.
+Proof. exact convert_input_definition_terminates. Qed.
+Print Assumptions C07_recursive_input_types_terminate.
+
+Theorem C07_termination_checks_are_sound :
+  (forall frags, frags_acyclicb frags = true -> frags_acyclic frags)
+  /\ (forall sch, impls_objectsb sch = true -> impls_objects sch).
+Proof. split; [exact frags_acyclicb_sound | exact impls_objectsb_sound]. Qed.
+Print Assumptions C07_termination_checks_are_sound.
+
+(* non-vacuity: an interface, a fragment spreading another fragment, a recursive input type as a
+   variable -- hypotheses hold and the model converts it with its fixed fuel *)
+Theorem C07_termination_witness :
+  (impls_objects t_schema /\ frags_acyclic t_frags /\ schema_okb t_schema = true
+   /\ frags_okb2 t_schema t_frags [] = true /\ forallb (op_okb2 t_schema t_frags []) [t_op] = true)
+  /\ exists tm ops, generate_types t_schema ConvertProofs.w_cfg t_frags [] [t_op] = Ok (tm, ops).
+Proof.
+  split; [exact t_hypotheses|]. destruct t_converts as (tm & ops & H & _). exists tm, ops. exact H.
+Qed.
+
+(* the fragment hypothesis is needed: a fragment that spreads itself (which the validator rejects)
+   exhausts every fuel *)
+Theorem C07_self_spreading_fragment_diverges :
+  forall n tm, assoc (b "F") tm = None ->
+  convert_named_fragment l_schema ConvertProofs.w_cfg [l_fr] [] n l_fr tm = OutOfFuel.
+Proof. exact self_spread_diverges. Qed.
+Print Assumptions C07_self_spreading_fragment_diverges.
+
+(* a limit of the MODEL, stated so that it is not mistaken for one of the generator: the fixed
+   fuel is a depth cap of about 130 nested selections; a deeper (acyclic, valid) program is
+   OutOfFuel in [generate_types] although it converts with more fuel, as the real generator does *)
+Theorem C07_fixed_fuel_is_a_depth_cap :
+  generate_types d_schema ConvertProofs.w_cfg [] [] [d_op 140] = OutOfFuel
+  /\ exists r, generate_types_with d_schema ConvertProofs.w_cfg [] [] 500 [d_op 140] = Ok r.
+Proof. split; [exact d_140_out_of_fuel | exact d_140_converts_with_more]. Qed.
